@@ -383,6 +383,11 @@ def stream_files(ctx, quick):
     ds = sfs._FilesystemDataSource(ctx.new_root())
     sc = Script()
     pool = "ab1.:#@%34Aaf-"
+    unquote = getattr(sfs, "unquote", None)
+    if unquote is None:
+        # the module no longer decodes file names with the function the model describes: the character-level stream cannot be
+        # compared; the listings of real entries below still say whether names come back as they were stored
+        chk.correspondence_break("unquote-unavailable", dict(note="storage_filesystem has no name `unquote` any more"))
     strings = ["", ":", "::", "%3A", "%3a", "%", "%%", "%4", "%41", "%zz", "a%3Ab", "x.link", ".link", "%2Elink", "a:b.link"]
     for _ in range(1500 if quick else 30000):
         strings.append("".join(rng.choice(pool) for _ in range(rng.randint(0, 14))))
@@ -398,8 +403,8 @@ def stream_files(ctx, quick):
             if o != hexs(re_):
                 chk.correspondence_break("escape", dict(string=s, real=re_, model=o))
         sc.add("esc " + hexs(s), h)
-        if not _re.search(r"%[89a-fA-F][0-9a-fA-F]", s):       # non-ASCII bytes: UTF-8 decoding is not modelled
-            ru = sfs.unquote(s)
+        if unquote is not None and not _re.search(r"%[89a-fA-F][0-9a-fA-F]", s):       # non-ASCII bytes: UTF-8 decoding is not modelled
+            ru = unquote(s)
 
             def h2(o, s=s, ru=ru):
                 if o != hexs(ru):
@@ -407,16 +412,16 @@ def stream_files(ctx, quick):
             sc.add("unq " + hexs(s), h2)
         chk.count("file-name-strings")
         # oracle: unquote(escape(s)) == s for names without '%'
-        if "%" not in s and sfs.unquote(re_) != s:
+        if unquote is not None and "%" not in s and unquote(re_) != s:
             ctx.viol("unquote(_escape_key(s)) differs from s", {"clause": "escape-roundtrip"}, dict(kind="escape", string=s))
     # real listings of real entries (directories and link files)
     for it in range(6 if quick else 60):
         root = ctx.new_root()
         names = []
         seen = set()
-        cands = ["m:f#x.link", "m:f#x", "k::m:f#1", "a.link", "a", "b.link.link", "plain", "v:1#.link", "c%41", ".linkx"]
+        cands = ["m:f#x.link", "m:f#x", "k::m:f#1", "a.link", "a", "b.link.link", "plain", "v:1#.link", "c%41", ".linkx", "m:f#1.0+build.5", "a+b", "+"]
         for _ in range(12):
-            cands.append("".join(rng.choice("ab1.:#@-") for _ in range(rng.randint(1, 8))) + rng.choice(["", "", ".link", ".memento.json"]))
+            cands.append("".join(rng.choice("ab1.:#@-+") for _ in range(rng.randint(1, 8))) + rng.choice(["", "", ".link", ".memento.json"]))
         for key in cands:
             is_dir = rng.random() < 0.5
             try:
@@ -761,7 +766,7 @@ def stream_store(ctx, quick):
 
 # ---- stream D: evolutions -------------------------------------------------------------------------
 
-EVOS = ["same", "edit", "edit_keepver", "remove", "rename", "alias", "recluster", "plain", "value", "modgone", "caller_body"]
+EVOS = ["same", "edit", "edit_keepver", "remove", "rename", "alias", "recluster", "plain", "value", "modgone", "caller_body", "edit_deps"]
 
 
 def evo_editions(sc):
@@ -787,6 +792,10 @@ def evo_editions(sc):
         e1 = assemble(gdef(cg, vg), fdef(), "g")
     elif evo == "edit":
         e1 = assemble(gdef(cg, None if vg is None else vg + sc.get("bump", "2"), body="x * 3"), fdef(), "g")
+    elif evo == "edit_deps":
+        # the edited callee now calls two more memento functions of its module (its version changes with its code)
+        helpers = gdef(cg, None, body="x + 1", name="h1") + gdef(cg, "h:2", body="x + 2", name="h2")
+        e1 = assemble(helpers + gdef(cg, None if vg is None else vg + sc.get("bump", "2"), body="h1(x) * h2(x)"), fdef(), "g")
     elif evo == "edit_keepver":
         e1 = assemble(gdef(cg, vg, body="x * 3") if vg is not None else gdef(cg, vg), fdef(), "g")
     elif evo == "remove":
@@ -894,7 +903,7 @@ def evo_case(ctx, sc):
         if not ok:
             fail("list_memoized_functions raised after the code base evolved", "list_memoized_functions", error=v,
                  cluster=cname, stored_reference=gqn)
-    if sc["evo"] in ("edit", "same", "caller_body"):
+    if sc["evo"] in ("edit", "same", "caller_body", "edit_deps"):
         # the callee's old entry is still in the store under its stored name: a memento query through the reference the
         # caller's memento carries for it (external after an edit) finds it
         oki, inv = obs1.get("invocation_entries", [True, None])
@@ -1020,7 +1029,7 @@ def stream_evolution(ctx, quick):
         scs.append(gen_evo(rng, i, "inproc", "fs" if rng.random() < 0.75 else "mem"))
         i += 1
     nchild = 10 if quick else 90
-    child_evos = ["edit", "remove", "recluster", "modgone", "midgone", "rename", "midgone"] + EVOS
+    child_evos = ["edit", "remove", "recluster", "modgone", "edit_deps", "midgone", "rename", "midgone"] + EVOS
     for k in range(nchild):
         evo = child_evos[k % len(child_evos)]
         cl = [(None, None), ("k:c", "k:c"), (None, "kd"), ("kc", None)][(k // 2 + k) % 4] if k >= 2 else [(None, None), ("k:c", "k:c")][k]
@@ -1111,7 +1120,7 @@ def replay_main(chk, replay):
     elif kind == "escape":
         from twosigma.memento import storage_filesystem as sfs
         ds = sfs._FilesystemDataSource(ctx.new_root())
-        if sfs.unquote(ds._escape_key(r["string"])) != r["string"]:
+        if getattr(sfs, "unquote", lambda t: None)(ds._escape_key(r["string"])) != r["string"]:
             fails = [dict(what="unquote(_escape_key(s)) != s")]
     elif kind == "listing":
         entries, listed = listing_case(ctx.new_root(), r["names"])
